@@ -115,7 +115,9 @@ Apply(c, s, a) ==
          THEN [f EXCEPT !.nsend = j, !.sendRes = Append(@, "error")]
          ELSE [f EXCEPT !.nsend = j, !.out = Append(@, j), !.sendRes = Append(@, ""),
                         !.stats = IF c.shape = "unary" THEN @ ELSE Append(@, "outpayload")]
-    [] a.op = "ret" -> [s EXCEPT !.ret = [code |-> a.code, msg |-> a.msg, det |-> a.det]]
+    \* (1001..1003: the handler returns a plain Go error - io.EOF, context.Canceled, errors.New - not a status:
+    \* every transport reports it as Unknown)
+    [] a.op = "ret" -> [s EXCEPT !.ret = [code |-> IF a.code \in 1001..1003 THEN 2 ELSE a.code, msg |-> a.msg, det |-> a.det]]
     [] OTHER -> s
 
 RECURSIVE Run(_, _, _, _)
